@@ -335,6 +335,9 @@ fn file_cases(args: &Args, rep: &mut Report) {
             other => rep.violation("C11/special/fifo", format!("FIFO carrying {} bytes through {}: {:?}", payload.len(), if rayon { "update_mmap_rayon" } else { "update_mmap" }, other.map(|r| r.map(|h| hex(&h)))), vec![]),
         }
     }
+    // a loop block device (st_size 0, length only known through seeking) and real EINTR on FIFO reads
+    crate::c11x::block_device_case(&dir, &mut rng, rep, three_way);
+    crate::c11x::eintr_storm_cases(&dir, &mut rng, rep, args.thorough);
     let _ = std::fs::remove_dir_all(&dir);
 }
 
@@ -360,4 +363,4 @@ pub fn run(args: &Args) -> Report {
     rep
 }
 
-pub const RULE: &str = "evaluations = fault-script readers (sequences of Ok(k) with hostile k, Err(Interrupted) anywhere, 5 hard error kinds, Ok(0)) checked against the model of the script (expected result kind, bytes yielded before the error, no poll after the terminator, hasher usable afterwards) + regular files on a length lattice around 16 KiB compared three ways (update_mmap, update_mmap_rayon, update_reader(File)) and with specmodel(fs::read) + special paths (symlink, /dev/null, /proc, directory, missing, FIFO); distinct = distinct scripts / file lengths / special paths";
+pub const RULE: &str = "evaluations = fault-script readers (sequences of Ok(k) with hostile k, Err(Interrupted) anywhere, 5 hard error kinds, Ok(0)) checked against the model of the script (expected result kind, bytes yielded before the error, no poll after the terminator, hasher usable afterwards) + regular files on a length lattice around 16 KiB compared three ways (update_mmap, update_mmap_rayon, update_reader(File)) and with specmodel(fs::read) + special paths (symlink, /dev/null, /proc, sysfs file that cannot be mapped, directory, missing, FIFO, loop block device, FIFO read under a storm of signals without SA_RESTART); distinct = distinct scripts / file lengths / special paths";
